@@ -8,6 +8,7 @@
 #include <cstdio>
 #include <cstring>
 #include <functional>
+#include <map>
 #include <new>
 #include <optional>
 #include <string>
@@ -33,6 +34,16 @@ struct PB : policy::release::rebind<PB>::replace<
 struct PC : policy::basic_policy<
                 PC, policy::std_rtti, policy::vptr_map<PC>,
                 policy::vectored_error<PC>> {};
+// facets that carry a second, non-default template argument, then rebound
+struct handler_provider {
+    static void default_error_handler(const error_type&) {
+    }
+};
+struct PE1 : policy::basic_policy<
+                 PE1, policy::std_rtti,
+                 policy::vptr_map<PE1, std::map<type_id, const std::uintptr_t*>>,
+                 policy::vectored_error<PE1, handler_provider>> {};
+struct PE2 : PE1::rebind<PE2> {};
 
 static K0 g_o0;
 static K1 g_o1;
@@ -136,12 +147,33 @@ struct World {
     }
 
     // ops: 0..3 toggle class record, 4..6 toggle definition, 7 update,
-    // 8 install handler, 9 create virtual_ptr
-    static constexpr int NOPS = 10;
+    // 8 install handler, 9 create virtual_ptr, 10 an update that fails while
+    // installing (hash search budget exhausted, hook H1)
+    static constexpr int NOPS = 11;
     static bool enabled(int op) {
         if (op == 9)
             return valid; // a virtual_ptr can only be made from valid tables
+        if (op == 10)
+            return X::template has_facet<policy::type_hash>;
         return true;
+    }
+    template<class Pol>
+    static void failing_update() {
+#ifdef JLL63_YOMM2_VERIF
+        if constexpr (Pol::template has_facet<policy::type_hash>) {
+            policy::fast_perfect_hash<Pol>::hash_attempt_budget = 0;
+            bool threw = false;
+            try {
+                update<Pol>();
+            } catch (Thrown&) {
+                threw = true;
+            }
+            policy::fast_perfect_hash<Pol>::hash_attempt_budget = 100000;
+            // either an unknown class was reported first, or the search failed
+            if (!threw)
+                g_model_mismatch = true;
+        }
+#endif
     }
     static void apply(int op) {
         if (op < 4) {
@@ -255,6 +287,11 @@ struct World {
             valid = ok;
             if (ok != consistent)
                 g_model_mismatch = true;
+        } else if (op == 10) {
+            vp.reset();
+            failing_update<X>();
+            dirty = false;
+            valid = false;
         } else if (op == 8) {
             X::error = installed_handler;
             handler = 1;
@@ -383,17 +420,18 @@ struct Worlds {
         int id = 1;
         ((W::policy_id = id++, W::reset()), ...);
     }
+    static constexpr int NOPS = 11;
     static int nops() {
-        return N * 10;
+        return N * NOPS;
     }
     static bool enabled(int op) {
-        int w = op / 10, o = op % 10, i = 0;
+        int w = op / NOPS, o = op % NOPS, i = 0;
         bool r = false;
         ((i++ == w ? (r = W::enabled(o), 0) : 0), ...);
         return r;
     }
     static void apply(int op) {
-        int w = op / 10, o = op % 10, i = 0;
+        int w = op / NOPS, o = op % NOPS, i = 0;
         ((i++ == w ? (W::apply(o), 0) : 0), ...);
     }
     static void snapshots(std::vector<std::string>& out, bool& model_ok) {
@@ -405,10 +443,11 @@ struct Worlds {
     }
 };
 
+static std::string g_family = "W2";
 static std::string seq_text(const std::vector<int>& seq) {
-    std::string s;
+    std::string s = g_family + " ";
     for (int op : seq)
-        s += std::string(1, char('A' + op / 10)) + std::to_string(op % 10) + " ";
+        s += std::string(1, char('A' + op / 11)) + std::to_string(op % 11) + " ";
     return s;
 }
 
@@ -427,7 +466,7 @@ static bool run_sequence(const std::vector<int>& seq, bool report) {
         ++g_transitions;
         WS::snapshots(after, model_ok);
         g_snapshots += WS::N;
-        int w = op / 10;
+        int w = op / 11;
         for (int x = 0; x < WS::N; ++x)
             if (x != w && before[x] != after[x]) {
                 if (report && g_cands.size() < 40)
@@ -468,7 +507,7 @@ static void explore(int depth, int shard, int nshards, std::vector<int> prefix) 
                 ++g_sequences;
                 bool involves_two = false;
                 for (size_t i = 1; i < seq.size(); ++i)
-                    if (seq[i] / 10 != seq[0] / 10)
+                    if (seq[i] / 11 != seq[0] / 11)
                         involves_two = true;
                 if (involves_two)
                     ++g_nontrivial;
@@ -505,18 +544,23 @@ int main(int argc, char** argv) {
         sscanf(argv[2], "%d/%d", &shard, &nshards);
     using W2 = Worlds<World<PA>, World<PB>>;
     using W3 = Worlds<World<PA>, World<PB>, World<PC>>;
+    using WE = Worlds<World<PE1>, World<PE2>>;
     if (mode == "replay" && argc > 2) {
         std::string text = argv[2];
         std::vector<int> seq;
-        for (size_t i = 0; i + 1 < text.size(); ++i)
+        std::string family = "W2";
+        size_t start = 0;
+        if (text.rfind("W", 0) == 0) {
+            family = text.substr(0, text.find(' '));
+            start = text.find(' ') + 1;
+        }
+        for (size_t i = start; i + 1 < text.size(); ++i)
             if (text[i] >= 'A' && text[i] <= 'C' && isdigit((unsigned char)text[i + 1]))
-                seq.push_back((text[i] - 'A') * 10 + (text[i + 1] - '0'));
-        bool three = false;
-        for (int op : seq)
-            if (op / 10 == 2)
-                three = true;
-        if (three)
+                seq.push_back((text[i] - 'A') * 11 + atoi(text.c_str() + i + 1));
+        if (family == "W3")
             run_sequence<W3>(seq, true);
+        else if (family == "WE")
+            run_sequence<WE>(seq, true);
         else
             run_sequence<W2>(seq, true);
         for (auto& c : g_cands)
@@ -526,15 +570,24 @@ int main(int argc, char** argv) {
     }
     // starting points: pristine, and "policy A fully set up" (0 1 2 3 4 5 6 7 8 9)
     std::vector<int> full_a = {0, 1, 2, 3, 4, 5, 6, 7, 8, 9};
-    std::vector<int> full_b = {10, 11, 12, 13, 14, 15, 16, 17, 18, 19};
+    std::vector<int> full_b = {11, 12, 13, 14, 15, 16, 17, 18, 19, 20};
     if (mode == "quick") {
+        g_family = "W2";
         explore<W2>(4, shard, nshards, {});
         explore<W2>(3, shard, nshards, full_a);
         explore<W2>(3, shard, nshards, full_b);
+        g_family = "WE";
+        explore<WE>(4, shard, nshards, {});
+        explore<WE>(3, shard, nshards, full_a);
     } else {
+        g_family = "W2";
         explore<W2>(5, shard, nshards, {});
         explore<W2>(4, shard, nshards, full_a);
         explore<W2>(4, shard, nshards, full_b);
+        g_family = "WE";
+        explore<WE>(5, shard, nshards, {});
+        explore<WE>(4, shard, nshards, full_a);
+        g_family = "W3";
         explore<W3>(4, shard, nshards, {});
         std::vector<int> both = full_a;
         both.insert(both.end(), full_b.begin(), full_b.end());
